@@ -386,3 +386,60 @@ Proof.
                         |destruct p; try reflexivity; apply mon_conc_placeholder
                         |apply mon_ec_silent_on_model].
 Qed.
+
+(** The same for every observation the judge accepts as agreeing with the
+    model.  For the deterministic kinds that is exactly [run17 inp].  The
+    hypothesis "kind <> 2" is necessary: see
+    [conc_success_clauses_not_determined_by_agreement]. *)
+Theorem mon17_silent_on_agreeing_sequential inp obs :
+  sx_Z (sx_nth inp 0) <> 2 -> agree17 inp obs = true -> mon17 inp obs = [].
+Proof.
+  intros Hk. pose proof (mon17_silent_on_model inp) as M. revert M.
+  unfold agree17, judge17, mon17, run17, judge_det.
+  destruct (sx_Z (sx_nth inp 0)) as [|p|p]; [| |reflexivity].
+  - rewrite agree_verdict. intros M H. apply sx_eqb_eq in H. subst obs. exact M.
+  - destruct p as [p|p|].
+    + destruct p; try reflexivity. rewrite agree_verdict. intros M H. apply sx_eqb_eq in H. subst obs. exact M.
+    + destruct p; try reflexivity. contradiction Hk. reflexivity.
+    + rewrite agree_verdict. intros M H. apply sx_eqb_eq in H. subst obs. exact M.
+Qed.
+
+Theorem model_output_agrees inp :
+  sx_Z (sx_nth inp 0) = 0 \/ sx_Z (sx_nth inp 0) = 1 \/ sx_Z (sx_nth inp 0) = 3 ->
+  agree17 inp (run17 inp) = true.
+Proof.
+  unfold agree17, judge17, run17, judge_det.
+  intros [H|[H|H]]; rewrite H; rewrite agree_verdict; apply sx_eqb_refl.
+Qed.
+
+(** * Non-vacuity (sequential kinds): inputs whose model runs exercise the clauses. *)
+Example seq_example :
+  let inp := L [A 0; A 1; L [A 2; A 0]; L [A 0]; L [A 1; A 2];
+                L [L [A 0; A 1; L []]; L [A 0; A 2; L [A 0; A 0; A 14]]; L [A 1; A 3; L []];
+                   L [A 2; L [A 0; A 3; A 4; A 2]; L []]; L [A 0; A 4; L []]]] in
+  map (fun o => sx_Z (sx_nth o 0)) (sx_list (run17 inp)) = [0; 14; 0; 0; 5]
+  /\ sx_nth (sx_nth (run17 inp) 3) 1 = L [A 4]
+  /\ agree17 inp (run17 inp) = true /\ mon17 inp (run17 inp) = [].
+Proof. vm_compute. repeat split; reflexivity. Qed.
+
+Example ec_example :
+  let inp := L [A 1; A 1; A 5;
+                L [L [A 3; A 0]; L [A 3; A 1]; L [A 0; L [A 0]; A 0; A 0; A 0]; L [A 4; A 0];
+                   L [A 0; L [A 0]; A 5; A 0; A 0]; L [A 0; L [A 0]; A 1; A 0; A 0];
+                   L [A 0; L [A 0; A 1]; A 0; A 0; A 14]; L [A 1; L [A 0; A 1]; A 0]; L [A 2; L [A 1]; A 0]]] in
+  map (fun o => sx_nth o 2) (sx_list (run17 inp)) =
+    [L []; L []; L [L [A 0]]; L []; L [L []]; L [L [A 0]]; L [L [A 0; A 1]]; L []; L []]
+  /\ agree17 inp (run17 inp) = true /\ mon17 inp (run17 inp) = [].
+Proof. vm_compute. repeat split; reflexivity. Qed.
+
+Example lru_example :
+  let inp := L [A 3; L [L [A 0; A 5]; L [A 0; A 7]; L [A 2]; L [A 1; A 5]; L [A 2]; L [A 3]; L [A 2]]] in
+  run17 inp = L [L [A 5; A 7; A 5]] /\ agree17 inp (run17 inp) = true /\ mon17 inp (run17 inp) = [].
+Proof. vm_compute. repeat split; reflexivity. Qed.
+
+(** Size 0 (rejected by the harness, accepted by the theorem): the first
+    recording panics in the model, and the monitor does not judge a panic. *)
+Example ec_size0_example :
+  let inp := L [A 1; A 0; A 5; L [L [A 3; A 0]; L [A 0; L [A 0]; A 0; A 0; A 0]]] in
+  run17 inp = L [A (-1)] /\ mon17 inp (run17 inp) = [].
+Proof. vm_compute. split; reflexivity. Qed.
